@@ -8,6 +8,7 @@ import os
 import random
 import re
 import subprocess
+import sys
 
 from vlib import core, flow
 
@@ -337,6 +338,12 @@ class BTreeSpec(flow.Spec):
                        "distinct operation sequences")
 
     def translator(self, ctx):
+        # data of btree.hpp the model depends on -> Gen/C01Consts.lean (rewritten only when it changed;
+        # the model's agreement facts `gen_*` in Model/C01Erase.lean and every proof are then re-checked)
+        out = os.path.join(core.LEAN, "TlxVerif", "Gen", "C01Consts.lean")
+        rc, o, e = core.sh([sys.executable, os.path.join(core.VERIF, "tools", "c01_extract.py"), core.REPO, out])
+        if rc != 0:
+            return ["translator tools/c01_extract.py: " + (e.strip() or o.strip() or f"rc={rc}")]
         objs, problems = prebuild(ctx)
         self.harness = harness_spec(objs)
         return problems
@@ -391,6 +398,8 @@ class C01(BTreeSpec):
     trusted_base = ["Lean 4 kernel", "axioms: propext, Quot.sound, Classical.choice at most (audited per theorem)",
                     "hand-written model TlxVerif/Model/C01*.lean tied to tlx/container/btree*.hpp by the structural "
                     "line-protocol correspondence (harness/c01*.cpp through tlx's TLX_BTREE_FRIENDS hook, ASan+UBSan)",
+                    "translator tools/c01_extract.py (slotmin formulas, is_full/is_few/is_underflow, result_flags_t bits, "
+                    "btree_default_traits -> Gen/C01Consts.lean, regenerated on every run)",
                     "libstdc++ std::set/multiset/map/multimap as reference oracle (search aid only)"]
 
 
